@@ -35,6 +35,7 @@ type (
 	Len     struct{ X Expr }
 	In      struct{ X, L Expr }
 	Paren   struct{ X Expr }
+	AddrOf  struct{ X Expr } // &x, &a[i]
 	// Call: named call when Callee == nil (callee looked up by Fn), anonymous otherwise.
 	Call struct {
 		Fn     string
@@ -75,6 +76,7 @@ func (*Member) isExpr()   {}
 func (*Len) isExpr()      {}
 func (*In) isExpr()       {}
 func (*Paren) isExpr()    {}
+func (*AddrOf) isExpr()   {}
 func (*Call) isExpr()     {}
 func (*FuncLit) isExpr()  {}
 func (*OpAssign) isExpr() {}
@@ -454,6 +456,9 @@ func (p *printer) expr(e Expr) {
 		p.b.WriteString("(")
 		p.expr(e.X)
 		p.b.WriteString(")")
+	case *AddrOf:
+		p.b.WriteString("&")
+		p.expr(e.X)
 	case *Call:
 		if e.Callee == nil {
 			p.b.WriteString(e.Fn)
